@@ -23,17 +23,28 @@ Targets == { <<"#one">>, <<"@#one">>, <<"+#one">>, <<"~@#one">>, <<"%+#one">>, <
 NTargets == { <<"#one">>, <<"@#one">>, <<"bob">>, <<"nobody">>, <<"#none">> }
 Msgs == { St(c, "PRIVMSG", <<t, <<"hi: there">>>>) : c \in {A, B, C, D}, t \in Targets }
         \cup { St(c, "NOTICE", <<t, <<"hi: there">>>>) : c \in {A, B, C, D}, t \in NTargets }
+(* a text that fills the input line to just under the 2000-byte limit: the relayed line (with the sender's prefix) is longer *)
+(* than any line the server accepts, and must still arrive whole                                                            *)
+T10 == "long text "
+T20 == T10 \o T10
+T40 == T20 \o T20
+T80 == T40 \o T40
+T160 == T80 \o T80
+T320 == T160 \o T160
+T640 == T320 \o T320
+T1280 == T640 \o T640
+LongText == T1280 \o T640 \o T40 \o "the end."        \* 1968 characters: with "PRIVMSG bob :" a line of 1981 bytes
+LongMsgs == { St(D, "PRIVMSG", <<<<"bob">>, <<LongText>>>>), St(A, "NOTICE", <<<<"#one">>, <<LongText>>>>) }
 (* membership and nick changes before the send only from the untoggled start state *)
 Enabled(st) == st.c \in DOMAIN S.conns /\ (st \in Later => hist = Pre)
-Steps == {st \in Later \cup Msgs : Enabled(st)}
+Steps == {st \in Later \cup Msgs \cup LongMsgs : Enabled(st)}
 Depth == 0
 DepthT == 0
 Init == InitWithToggles(Cfg, Pre, Toggles)
 Next == NextWith(Steps)
 Spec == Init /\ [][Next]_vars
 (* one message after the combination, or one further change and then a message *)
-Constraint == Len(SelectSeq(hist, LAMBDA st : st \in Later \cup Msgs)) <= 2
-             /\ (Len(hist) > 0 /\ hist[Len(hist)] \in Msgs => TRUE)
-             /\ Len(SelectSeq(hist, LAMBDA st : st \in Msgs)) <= 1
+Constraint == Len(SelectSeq(hist, LAMBDA st : st \in Later \cup Msgs \cup LongMsgs)) <= 2
+             /\ Len(SelectSeq(hist, LAMBDA st : st \in Msgs \cup LongMsgs)) <= 1
 ASSUME PrintT(<<"CFG", ToJson(CfgJson(Cfg))>>)
 =============================================================================
